@@ -139,7 +139,7 @@ func parseContractText(w *World, pkgPath, file string, src []byte) error {
 						c.Props = append(c.Props, strings.TrimSuffix(toks[i+1], ","))
 						i++
 					}
-				case "arith", "paths", "params", "tags", "unrollall", "uses":
+				case "arith", "paths", "params", "tags", "unrollall", "uses", "deadblocks", "deadcode":
 					if i+1 < len(toks) {
 						c.Flags[toks[i]] = toks[i+1]
 						i++
@@ -242,6 +242,27 @@ func parseContractText(w *World, pkgPath, file string, src []byte) error {
 			e, err := parser.ParseExpr(strings.TrimSpace(rest[eq+1:]))
 			if err != nil {
 				return fmt.Errorf("%s:%d: let: %v", file, l.no, err)
+			}
+			cl.Expr = e
+		case "sink":
+			// sink "callee" requires EXPR  -- guard obligation: EXPR is checked in the state in
+			// which the function under verification calls callee (every such call)
+			r := strings.TrimSpace(rest)
+			if !strings.HasPrefix(r, "\"") {
+				return fmt.Errorf("%s:%d: sink: expected a quoted callee name", file, l.no)
+			}
+			q := strings.Index(r[1:], "\"")
+			if q < 0 {
+				return fmt.Errorf("%s:%d: sink: unterminated callee name", file, l.no)
+			}
+			cl.Name = r[1 : 1+q]
+			r = strings.TrimSpace(r[q+2:])
+			if !strings.HasPrefix(r, "requires ") {
+				return fmt.Errorf("%s:%d: sink: expected 'requires' after the callee name", file, l.no)
+			}
+			e, err := parser.ParseExpr(strings.TrimSpace(r[len("requires "):]))
+			if err != nil {
+				return fmt.Errorf("%s:%d: sink: %v", file, l.no, err)
 			}
 			cl.Expr = e
 		case "modifies", "unroll", "havoc", "note":
